@@ -139,6 +139,16 @@ F = [
   "Exp reported Overflow for arguments a hair above a multiple of 23 (the working precision was derived from |x| rounded to a float64): Exp(3611.0000000000000000001) P=41 Emax=100000 returned Infinity",
   {"C12": [ar("exp", ctx(41, 100000, -100000, "down"), dec("36110000000000000000001", -19)), ar("exp", ctx(41, 100000, -100000, "down"), dec("98900000000000004", -14)),
            ar("exp", ctx(5, 1000, -1000, "half_even"), dec("11500000000000000000001", -20))]}),
+ ("D45", "Cbrt reports Subnormal for an exact subnormal root",
+  "Cbrt's exact-cube path returned no condition at all: Cbrt(1E-3) at Precision 2, MinExponent 0 returned 0.1 (below 10^MinExponent) without Subnormal (remarked by a seeding sub-agent reading the code; C02 now derives the conditions of exact cube roots)",
+  {"C02": [ar("cbrt", ctx(2, 2, 0, "down"), dec(1, -3), note="composite"), ar("cbrt", ctx(9, 9, 0, "down"), dec(10, -4), note="composite")]}),
+ ("D44", "QuoInteger applies the context's exponent range to its result",
+  "QuoInteger returned integers above the context's exponent range when MaxExponent < Precision-1: QuoInteger(90, 9) at Precision 2, MaxExponent 0 returned 10 with no condition (found once contexts with MaxExponent below Precision were generated)",
+  {"C07": [ar("quointeger", ctx(2, 0, 0, "down"), dec(9, 1), dec(9))],
+   "C10": [ar("quointeger", ctx(2, 0, 0, "down"), dec(891), dec(9))]}),
+ ("D43", "quantize does not apply MaxExponent to its rescaled intermediate",
+  "Quantize returned NaN/InvalidOperation for representable results when MaxExponent is below the number of coefficient digits of the result: Quantize(123.45, -1) at Precision 5, MaxExponent 2 (first remarked by a seeding sub-agent; found by C09 once contexts with MaxExponent below Precision were generated)",
+  {"C09": [ar("quantize", ctx(5, 2, -5, "half_even"), dec(9997, -2), qexp=-1), ar("quantize", ctx(2, 0, 0, "down"), dec(999, -2), qexp=-1)]}),
  ("D42", "Pow sizes its working precision by the length of the exponent",
   "Pow allowed for an exponent of at most 6 digits when sizing the working precision of its integer power, so long integer exponents gave results several units off: Pow(1.0000000000001, -99999999999) at Precision 41 was 4.9 ulp from the true value (found when a generator class for a seeded mutant of the same constant was added)",
   {"C12": [ar("pow", ctx(41, 1000, -1000, "down"), dec("10000000000001", -13), dec("99999999999", 0, True)),
